@@ -65,6 +65,7 @@ pub fn alloc_peak_since(mark: usize) -> usize {
 // Panic capture
 
 thread_local! {
+    static GUARD_DEPTH: std::cell::Cell<u32> = const { std::cell::Cell::new(0) };
     static LAST_PANIC: std::cell::RefCell<Option<String>> = const { std::cell::RefCell::new(None) };
 }
 
@@ -86,13 +87,20 @@ pub fn install_panic_hook() {
         } else {
             "<non-string panic>".into()
         };
+        if GUARD_DEPTH.with(|d| d.get()) == 0 {
+            // a panic of the harness itself: machinery failure, make it visible
+            eprintln!("MACHINERY: harness panic: {} @ {}", msg, loc);
+        }
         LAST_PANIC.with(|p| *p.borrow_mut() = Some(format!("{} @ {}", msg, loc)));
     }));
 }
 
 /// Run `f`, converting a panic into `Err("msg @ file:line")`.
 pub fn guarded<T>(f: impl FnOnce() -> T) -> Result<T, String> {
-    match std::panic::catch_unwind(std::panic::AssertUnwindSafe(f)) {
+    GUARD_DEPTH.with(|d| d.set(d.get() + 1));
+    let r = std::panic::catch_unwind(std::panic::AssertUnwindSafe(f));
+    GUARD_DEPTH.with(|d| d.set(d.get() - 1));
+    match r {
         Ok(v) => Ok(v),
         Err(_) => Err(LAST_PANIC
             .with(|p| p.borrow_mut().take())
